@@ -114,7 +114,28 @@ func (p *Parser) Parse(source string) (Node, error) {
 		return nil, fmt.Errorf("parsing error: unexpected '%s' tag at line %d: no block is open", name, tok.Line)
 	}
 
+	linkMacros(nodes)
+
 	return NewRootNode(nodes, 1), nil
+}
+
+// linkMacros tells every top-level macro of a template about the macros defined
+// next to it, so that its body can call them wherever the macro ends up being used
+func linkMacros(nodes []Node) {
+	var macros map[string]*MacroNode
+	for _, node := range nodes {
+		if macro, ok := node.(*MacroNode); ok {
+			if macros == nil {
+				macros = make(map[string]*MacroNode)
+			}
+			macros[macro.name] = macro // as at render time, the last definition of a name wins
+		}
+	}
+	for _, node := range nodes {
+		if macro, ok := node.(*MacroNode); ok {
+			macro.siblings = macros
+		}
+	}
 }
 
 // Initialize block handlers for different tag types
